@@ -54,7 +54,7 @@ func Harvest() []string {
 
 var spliceBits = []string{"{{", "}}", "{%", "%}", "-", "|", ":", ",", ".", "[", "]", "(", ")", "..", "\"", "'", " ", "\n", "=", "==", "contains",
 	"%assign ", "{%cycle ", "%loop ", "{%when ", "99999999999999999999", "-1", "0", "nil", "forloop", "endfor", "endif", "else", "in", "size", "first",
-	"{% endraw %}", "{% endcomment %}", "{% break %}", "{% continue %}", "{% cycle 'a' %}", "limit:", "offset:", "cols:", "reversed", "x", "1.5", "and", "or"}
+	"{% endraw %}", "{% endcomment %}", "{% break %}", "{% continue %}", "{% cycle 'a' %}", "limit:", "offset:", "cols:", "reversed", "x", "1.5", "and", "or", "\\", "\\\"", "\\'", "010", "{% xecho {{ x }} %}", "{% xwrap {{ x }} %}", "{% endxwrap %}"}
 
 // Mutate applies 1..3 random edits to a template source.
 func Mutate(r *core.Rand, s string, pool []string) string {
@@ -112,7 +112,7 @@ func Mutate(r *core.Rand, s string, pool []string) string {
 		case 8: // replace a byte
 			b := []byte(s)
 			if p < len(b) {
-				b[p] = "{}%-|:.[]()\"' \n0a"[r.Intn(17)]
+				b[p] = "{}%-|:.[]()\"' \n0a\\"[r.Intn(18)]
 			}
 			s = string(b)
 		}
